@@ -36,9 +36,17 @@ static void op_redc_n(int argc, char **argv)
   out_limbs(cp, n);
   if (!gbuf_ok(tp, 2 * n) || !gbuf_ok(mp, n) || !gbuf_ok(cp, n) || !gbuf_ok(ip, n)) outs("REDZONE");
   gbuf_free(tp); gbuf_free(mp); gbuf_free(cp); gbuf_free(ip); gbuf_free(sc); }
+/* mpn_powm B E M : the internal routine with B of any length, E > 1, M odd of n limbs (n result limbs) */
+static void op_mpn_powm(int argc, char **argv)
+{ (void)argc; mpz_t b, e, m; parse_z(argv[1], b); parse_z(argv[2], e); parse_z(argv[3], m);
+  mp_size_t bn = ABSIZ(b), en = ABSIZ(e), n = ABSIZ(m);
+  mp_ptr rp = gbuf_alloc(n), tp = gbuf_alloc(2 * n + mpn_binvert_itch(n) + 64);
+  mpn_powm(rp, PTR(b), bn, PTR(e), en, PTR(m), n, tp);
+  out_limbs(rp, n); if (!gbuf_ok(rp, n)) outs("REDZONE");
+  gbuf_free(rp); gbuf_free(tp); mpz_clear(b); mpz_clear(e); mpz_clear(m); }
 static void op_powmcheck(int argc, char **argv) { (void)argc; (void)argv; outl(1); }
 const op_t ops_pow[] = {
   {"mpz_powm", op_powm}, {"mpz_powm_ui", op_powm_ui}, {"mpz_pow_ui", op_pow_ui}, {"mpz_ui_pow_ui", op_ui_pow_ui},
-  {"mpn_redc_1", op_redc_1}, {"mpn_redc_n", op_redc_n}, {"powmcheck", op_powmcheck},
+  {"mpn_redc_1", op_redc_1}, {"mpn_powm", op_mpn_powm}, {"mpz_powm_c", op_powm}, {"mpn_redc_n", op_redc_n}, {"powmcheck", op_powmcheck},
   {NULL, NULL}
 };
